@@ -25,7 +25,7 @@ func (e *Engine) checkLemmas(prop string) *FnResult {
 	var res = &FnResult{Func: "lemmas"}
 	for _, l := range ls {
 		fx := &FnCtx{eng: e, obls: map[string]*Obligation{}, heapSorts: map[string]string{}, unsup: map[string]bool{}, notes: map[string]bool{},
-			params: map[string]*Val{}, keySorts: map[string]string{}, locksTouched: map[string]bool{}, covers: map[string]bool{}, exercised: map[*AtCall]bool{}}
+			params: map[string]*Val{}, keySorts: map[string]string{}, locksTouched: map[string]bool{}, covers: map[string]bool{}, exercised: map[*AtCall]bool{}, ipdomCache: map[*ssa.Function]map[*ssa.BasicBlock]*ssa.BasicBlock{}, joinCache: map[joinKey]*ssa.BasicBlock{}}
 		fx.fn = e.anyRepoFunc(l.Where)
 		fx.sol = NewSolver(e.TimeoutMs)
 		st := &State{fx: fx, heap: map[string]string{}, kep: map[string]int{}}
